@@ -50,6 +50,7 @@ const arenaSize = 1 << 27 // 128 MiB of address space, shared by the runs of one
 var procArena []byte
 var procArenaDirty uintptr // prefix whose page protections are mixed (left by an mprotect-mode run)
 var procArenaRW uintptr    // prefix that is readable and writable (left by a poison-only run)
+var procArenaUsed uintptr  // prefix the previous run allocated from
 
 func NewGuardAlloc(env *Env, protect bool) *GuardAlloc {
 	if procArena == nil {
@@ -75,24 +76,22 @@ func NewGuardAlloc(env *Env, protect bool) *GuardAlloc {
 			}
 		}
 	}
-	if protect {
-		n := procArenaDirty
-		if procArenaRW > n {
-			n = procArenaRW
-		}
-		reset(n, syscall.PROT_NONE)
-		procArenaDirty, procArenaRW = 0, 0
-	} else {
-		if procArenaDirty > 0 {
-			n := procArenaDirty
-			if procArenaRW > n {
-				n = procArenaRW
-			}
-			reset(n, syscall.PROT_READ|syscall.PROT_WRITE)
-			procArenaRW, procArenaDirty = n, 0
-		}
-		g.rwTo = procArenaRW
+	// Every run starts from the same arena state whatever ran before in this
+	// process: the part the previous run could touch is cleared and the whole arena
+	// is inaccessible again, so that even code reading memory it never allocated
+	// (a stale or poisoned pointer) behaves the same in a replay process.
+	n := procArenaDirty
+	if procArenaRW > n {
+		n = procArenaRW
 	}
+	if n > 0 {
+		reset(n, syscall.PROT_READ|syscall.PROT_WRITE)
+		// the whole accessible prefix, not only what was allocated: a read or CAS
+		// through a poisoned height field lands up to 1 MiB past the block
+		clear(procArena[:n])
+		reset(n, syscall.PROT_NONE)
+	}
+	procArenaDirty, procArenaRW, procArenaUsed = 0, 0, 0
 	return g
 }
 
@@ -103,8 +102,9 @@ func (g *GuardAlloc) Release() {
 		delete(g.huge, a)
 	}
 	if g.arena != nil {
+		procArenaUsed = (g.next + pageSize - 1) &^ (pageSize - 1)
 		if g.protect {
-			procArenaDirty = (g.next + pageSize - 1) &^ (pageSize - 1)
+			procArenaDirty = procArenaUsed
 		} else {
 			procArenaRW = g.rwTo
 		}
